@@ -575,6 +575,8 @@ func (e *Ev) evIndex(x *ast.IndexExpr, commaOk bool) Val {
 		return e.arrLitIndex(b, i, x)
 	case VHeapMap:
 		return e.heapMapLookup(b, e.ev(x.Index), commaOk, x)
+	case VStrMap:
+		return e.strMapLookup(b, e.ev(x.Index), commaOk, x)
 	case VSubmatch:
 		i := e.intOf(e.ev(x.Index), x.Index)
 		k, err := strconv.Atoi(i)
